@@ -34,6 +34,8 @@ F(n) == [k |-> "f", n |-> n]
 Bin(o, l, r) == [k |-> "bin", op |-> o, l |-> l, r |-> r]
 Not(e) == [k |-> "not", e |-> e]
 SubM(a, b) == [k |-> "sub", a |-> a, b |-> b]
+GSubM(a, b) == [k |-> "gsub", a |-> a, b |-> b]        \* the same method called on the result of another call: F.Me().Sub(a, b)
+Bool(v) == [k |-> "bool", bv |-> v]
 
 NumOps == {"add", "sub", "mul"}
 CmpOps == {"lt", "le", "gt", "ge", "eq", "ne"}
@@ -44,7 +46,8 @@ Ev(t, f) ==
     [] t.k = "b" -> [t |-> "b", b |-> t.b]
     [] t.k = "f" -> f[t.n]
     [] t.k = "not" -> [t |-> "b", b |-> ~Ev(t.e, f).b]
-    [] t.k = "sub" -> [t |-> "n", v |-> SubD(Ev(t.a, f).v, Ev(t.b, f).v)]
+    [] t.k = "bool" -> [t |-> "b", b |-> t.bv]
+    [] t.k \in {"sub", "gsub"} -> [t |-> "n", v |-> SubD(Ev(t.a, f).v, Ev(t.b, f).v)]
     [] t.k = "bin" ->
          LET a == Ev(t.l, f)  b == Ev(t.r, f) IN
          CASE t.op = "add" /\ a.t = "s" -> [t |-> "s", s |-> a.s \o b.s]
@@ -65,14 +68,19 @@ Ev(t, f) ==
 N(v) == [t |-> "n", v |-> v]
 \* fact states: numeric field V sweeps the given decimals, the others are fixed
 Fact(v, x, y, s, tt, b) == [V |-> N(v), X |-> N(D(x, 0)), Y |-> N(D(y, 0)), S |-> [t |-> "s", s |-> s], T |-> [t |-> "s", s |-> tt],
-                           B |-> [t |-> "b", b |-> b], A0 |-> N(D(x + 1, 0)), A1 |-> N(D(y + 2, 0)), Ma |-> N(D(x + 3, 0)), Mb |-> N(D(y + 4, 0))]
+                           B |-> [t |-> "b", b |-> b], A0 |-> N(D(x + 1, 0)), A1 |-> N(D(y + 2, 0)), Ma |-> N(D(x + 3, 0)), Mb |-> N(D(y + 4, 0)),
+                           \* the same places reached through the result of a method call (F.Me().X, F.GetArr()[0], F.GetM()["a"], F.Me().S),
+                           \* and the fields of another object a call returns (F.Other().X)
+                           GX |-> N(D(x, 0)), GY |-> N(D(y, 0)), GA0 |-> N(D(x + 1, 0)), GA1 |-> N(D(y + 2, 0)), GMa |-> N(D(x + 3, 0)),
+                           GMb |-> N(D(y + 4, 0)), GS |-> [t |-> "s", s |-> s], GT |-> [t |-> "s", s |-> tt],
+                           OX |-> N(D(x + 10, 0)), OY |-> N(D(y + 10, 0)), GGX |-> N(D(x, 0)), GGY |-> N(D(y, 0))]
 
 \* ---- sibling families: each member is <<family, cond1, rhs1, cond2, rhs2, facts>> ----
 \* constants that a lossy rendering could merge
 ConstPairs == { <<D(1, -7), D(2, -7)>>, <<D(100000001, -2), D(100000002, -2)>>, <<D(106827123, -6), D(106827129, -6)>>,
                 <<D(50000001, -1), D(50000002, -1)>>, <<D(5, -1), D(-5, -1)>>, <<D(1234561, -7), D(1234562, -7)>>,
                 <<D(1, -3), D(1000, 0)>>, <<D(2, 0), DF(2, 0)>>, <<D(12, 0), D(-12, 0)>>, <<D(15, -1), D(15, 0)>>,
-                <<D(3, -6), D(3, -7)>>, <<D(1000000, 0), DF(1000000, 0)>>, <<D(123456789, -8), D(123456788, -8)>> }
+                <<D(3, -6), D(3, -7)>>, <<D(0, 0), DF(0, 0)>>, <<D(1, 0), DF(1, 0)>>, <<D(1000000, 0), DF(1000000, 0)>>, <<D(123456789, -8), D(123456788, -8)>> }
 Mid(p) == LET e == Min(p[1].e, p[2].e) - 1
               x == Scaled(p[1], e)
               y == Scaled(p[2], e)
@@ -106,13 +114,30 @@ OrderFamily == { [fam |-> "order", c1 |-> Bin(c, Bin(o, F(p[1]), F(p[2])), k), a
                \cup { [fam |-> "order", c1 |-> Bin(c, Bin("add", F("S"), F("T")), Str("ab")), a1 |-> Bin("add", F("S"), F("T")),
                   c2 |-> Bin(c, Bin("add", F("T"), F("S")), Str("ab")), a2 |-> Bin("add", F("T"), F("S")), facts |-> IntFacts] : c \in {"eq", "ne"} }
 SelFamily == { [fam |-> "selector", c1 |-> Bin(c, F(p[1]), C(D(k, 0))), a1 |-> F(p[1]), c2 |-> Bin(c, F(p[2]), C(D(k, 0))), a2 |-> F(p[2]),
-                facts |-> IntFacts] : p \in {<<"A0", "A1">>, <<"Ma", "Mb">>, <<"X", "Y">>}, c \in {"eq", "gt"}, k \in {2, 4} }
+                facts |-> IntFacts] : p \in {<<"A0", "A1">>, <<"Ma", "Mb">>, <<"X", "Y">>, <<"GX", "GY">>, <<"GA0", "GA1">>, <<"GMa", "GMb">>, <<"GGX", "GGY">>,
+                       <<"GX", "GA0">>, <<"GA0", "GMa">>}, c \in {"eq", "gt"}, k \in {2, 4} }
+             \cup { [fam |-> "selector", c1 |-> Bin(c, F(p[1]), C(D(k, 0))), a1 |-> F(p[1]), c2 |-> Bin(c, F(p[2]), C(D(k, 0))), a2 |-> F(p[2]),
+                facts |-> IntFacts] : p \in {<<"GX", "OX">>, <<"OX", "OY">>}, c \in {"eq", "gt"}, k \in {2, 12} }
+             \cup { [fam |-> "selector", c1 |-> Bin(c, F(p[1]), Str("a")), a1 |-> F(p[1]), c2 |-> Bin(c, F(p[2]), Str("a")), a2 |-> F(p[2]),
+                facts |-> IntFacts] : p \in {<<"GS", "GT">>, <<"S", "T">>}, c \in {"eq", "ne"} }
 ArgFamily == { [fam |-> "argument", c1 |-> Bin(c, SubM(p[1], p[2]), C(D(0, 0))), a1 |-> SubM(p[1], p[2]),
                 c2 |-> Bin(c, SubM(q[1], q[2]), C(D(0, 0))), a2 |-> SubM(q[1], q[2]), facts |-> IntFacts] :
                 p \in {<<F("X"), C(D(1, 0))>>, <<F("X"), F("Y")>>}, q \in {<<F("X"), C(D(2, 0))>>, <<C(D(1, 0)), F("X")>>, <<F("Y"), F("X")>>},
                 c \in {"gt", "eq"} }
+             \cup { [fam |-> "argument", c1 |-> Bin(c, GSubM(p[1], p[2]), C(D(0, 0))), a1 |-> GSubM(p[1], p[2]),
+                c2 |-> Bin(c, GSubM(q[1], q[2]), C(D(0, 0))), a2 |-> GSubM(q[1], q[2]), facts |-> IntFacts] :
+                p \in {<<F("X"), C(D(1, 0))>>, <<F("GX"), F("GY")>>}, q \in {<<F("X"), C(D(2, 0))>>, <<C(D(1, 0)), F("X")>>, <<F("GY"), F("GX")>>},
+                c \in {"gt", "eq"} }
+\* constants of different types whose stored encodings coincide or nearly so: 0, 0.0, "", false; 1, 1.0, "1", true, "0"
+CrossTerms == { <<Bin("eq", F("X"), C(D(0, 0))), C(D(0, 0))>>, <<Bin("eq", F("V"), C(DF(0, 0))), C(DF(0, 0))>>, <<Bin("eq", F("S"), Str("")), Str("")>>,
+                <<Bin("eq", F("B"), Bool(FALSE)), C(D(7, 0))>>, <<Bin("eq", F("X"), C(D(1, 0))), C(D(1, 0))>>, <<Bin("eq", F("V"), C(DF(1, 0))), C(DF(1, 0))>>,
+                <<Bin("eq", F("S"), Str("1")), Str("1")>>, <<Bin("eq", F("S"), Str("0")), Str("0")>>, <<Bin("eq", F("B"), Bool(TRUE)), C(D(8, 0))>>,
+                <<Bin("eq", F("S"), Str("true")), Str("true")>>, <<Bin("eq", F("S"), Str("0.0")), Str("0.0")>> }
+CrossFacts == << Fact(DF(0, 0), 0, 2, "", "b", FALSE), Fact(DF(1, 0), 1, 2, "1", "b", TRUE), Fact(DF(0, 0), 1, 2, "0", "b", TRUE),
+                 Fact(DF(1, 0), 0, 2, "true", "b", FALSE), Fact(DF(5, -1), 3, 2, "0.0", "b", TRUE) >>
+CrossFamily == { [fam |-> "crosstype", c1 |-> p[1], a1 |-> p[2], c2 |-> q[1], a2 |-> q[2], facts |-> CrossFacts] : p \in CrossTerms, q \in CrossTerms }
 
-Families == ConstFamily \cup StrFamily \cup OpFamily \cup NegFamily \cup OrderFamily \cup SelFamily \cup ArgFamily
+Families == ConstFamily \cup StrFamily \cup OpFamily \cup NegFamily \cup OrderFamily \cup SelFamily \cup ArgFamily \cup CrossFamily
 
 VARIABLE case
 Alone(c, a, facts) == [i \in DOMAIN facts |-> [holds |-> Ev(c, facts[i]).b, stores |-> Ev(a, facts[i])]]
@@ -122,6 +147,6 @@ Init == \E m \in Families :
 Next == UNCHANGED case
 Spec == Init /\ [][Next]_case
 \* design-level statement: the two siblings really are distinguishable on the listed facts, or are the same rule
-Distinguishable == case.want1 # case.want2 \/ case.fam \in {"operator", "comparison", "logic", "order", "argument", "selector"}
+Distinguishable == case.want1 # case.want2 \/ case.fam \in {"operator", "comparison", "logic", "order", "argument", "selector", "crosstype"}
 Export == PrintT("CASE " \o ToJson(case))
 =============================================================================
